@@ -406,8 +406,11 @@ pub fn run_walk(lts: Arc<Lts>, o: Arc<WalkOpts>) -> Value {
                         let s = &lts.states[si];
                         // (1) edges that leave the state unchanged according to the model, back to back
                         let mut sess: Option<AnySession> = None;
+                        // (layer placement is part of an overlay's state: a copy-up made by one edge would hide the
+                        // "served from a lower layer" situation from the next, so lower-only runs build every edge afresh)
+                        let fresh_each = o.lower_only;
                         for e in lts.edges[si].iter().filter(|e| o.ops.is_empty() || o.ops.contains(&e.op.op)) {
-                            if e.to == si {
+                            if e.to == si && !fresh_each {
                                 if sess.is_none() {
                                     let mut ns = new_any_session(&lts, &o, s, &mut rng);
                                     stats.builds.fetch_add(1, Ordering::Relaxed);
@@ -437,7 +440,7 @@ pub fn run_walk(lts: Arc<Lts>, o: Arc<WalkOpts>) -> Value {
                         }
                         // (2) edges that change the state: fresh construction for each
                         for e in lts.edges[si].iter().filter(|e| o.ops.is_empty() || o.ops.contains(&e.op.op)) {
-                            if e.to != si {
+                            if e.to != si || fresh_each {
                                 let mut ns = new_any_session(&lts, &o, s, &mut rng);
                                 stats.builds.fetch_add(1, Ordering::Relaxed);
                                 let init = ns.init_event();
